@@ -9,7 +9,6 @@ Two trace-level checks on the implementation's own traces:
 import os, sys, importlib
 import vlib
 from props.common import ScenarioCheck, scn_id, run_batch, SIMDRV_SRC
-from props.c07 import known_trigger as c07_known
 from specs import nat, handshake
 sys.path.insert(0, os.path.join(os.path.dirname(os.path.dirname(os.path.abspath(__file__))), "gen"))
 hs_gen = importlib.import_module("hs_gen")
@@ -101,16 +100,10 @@ class Check(ScenarioCheck):
         return dict(c13_coverage=dict(AGG))
 
 
-def known_trigger(kf, r, fails):
-    # the stale-accept finding (see props/c07.py) shows here as the accepted socket's local endpoint != dialled endpoint
-    if any(c not in ("c13-tcp-own-local",) for c, _ in fails): return False
-    return c07_known(kf, r, [])
-
-
 CHECK = Check(
     "C13", ["SimVerif.Props.C13"], "kernel", gen, spec_c13, nontrivial,
     "gen/hs_gen.py families natmix / natudp / hs and net_gen udp / mixed: NAT placement none, client side, both sides, several nodes behind ONE external address (same ext=), random per address; UDP datagrams between natted and public nodes (equal ports on different nodes, truncating and non-blocking receives), TCP connections with data both ways, all three accept overloads; each scenario with a NAT hop also runs as a NAT-free twin for the metamorphic comparison. non-trivial = an external address was observed by a receiver / accepted socket; distinct = distinct implementation trace",
-    TRUSTED, ASSUME, known_trigger=known_trigger, spec_scn=True)
+    TRUSTED, ASSUME, spec_scn=True)
 
 
 def run(tier, seed, replay):
